@@ -137,6 +137,46 @@ def orderTransforms (rots transl : List (Transform K)) : List (Transform K) :=
 
 end Pipeline
 
+section Apply
+variable {K : Type} [Add K] [Sub K] [Mul K] [Div K] [Neg K] [NatCast K] [HasTrig K]
+  [LT K] [DecidableLT K]
+
+/-- does an option with optional tag `t` act on the object tagged `tg` (no tag: every object) -/
+def actsOn (t : Option Nat) (tg : Nat) : Bool :=
+  match t with
+  | none => true
+  | some u => u == tg
+
+/-- `Geobj.rotate` / `Geobj.translate` on one point of the object tagged `tg` -/
+def applyT (isZero : K → Bool) (t : Transform K) (tg : Nat) (p : V3 K) : V3 K :=
+  if actsOn t.tag tg then
+    match t.kind with
+    | .rotate => (rotMatrix isZero t.vec.x t.vec.y t.vec.z).mulVec p
+    | .translate => p + t.vec
+  else p
+
+/-- one `--geo-scale` option -/
+structure Scale (K : Type) where
+  factor : K
+  tag : Option Nat
+deriving Repr, Inhabited
+
+def applyS (s : Scale K) (tg : Nat) (p : V3 K) : V3 K :=
+  if actsOn s.tag tg then ⟨p.x * s.factor, p.y * s.factor, p.z * s.factor⟩ else p
+
+/-- product of the scale factors that act on object `tg` (the factor its radius is multiplied by) -/
+def scaleOf (scales : List (Scale K)) (tg : Nat) : K :=
+  scales.foldl (fun acc s => if actsOn s.tag tg then acc * s.factor else acc) ((1 : Nat) : K)
+
+/-- the whole geometry pipeline of `main` for one point of object `tg`: rotations and
+translations in sort-key order, then every scale option in command-line order -/
+def pipeline (isZero : K → Bool) (rots transl : List (Transform K)) (scales : List (Scale K))
+    (tg : Nat) (p : V3 K) : V3 K :=
+  scales.foldl (fun q s => applyS s tg q)
+    ((orderTransforms rots transl).foldl (fun q t => applyT isZero t tg q) p)
+
+end Apply
+
 /-! ### tapering (taper.py) -/
 
 section Taper
